@@ -1002,6 +1002,22 @@ class MTVRP(Ref):
         self.load_bh = 0.0
         self.in_backhaul = False
         self.tscale = self.tw[0][1] if self.tw[0][1] != INF else 1.0
+        # integer mode (see CVRP.__init__): generator demands are k / capacity_original
+        self.Q = None
+        self.klh = self.kbh = None
+        if INTEGER_CAPACITY and "capacity_original" in inst and self.cap == 1.0:
+            q = float(_scalar(inst["capacity_original"]))
+            kl, kb = [d * q for d in self.lh], [d * q for d in self.bh]
+            if q >= 1 and abs(q - round(q)) < 1e-9 and all(abs(k - round(k)) < 1e-3 for k in kl + kb):
+                self.Q = int(round(q))
+                self.klh = [int(round(k)) for k in kl]
+                self.kbh = [int(round(k)) for k in kb]
+        self.kload_lh = self.kload_bh = 0
+
+    def _cap_band(self, load, dem, kload, kdem):
+        if self.Q is not None and INTEGER_CAPACITY == "verdict":
+            return "must" if kload + kdem <= self.Q else "not"
+        return band(self.cap - (load + dem), self.cap)
 
     def d(self, a, b):
         return dist(self.locs[a], self.locs[b])
@@ -1012,12 +1028,12 @@ class MTVRP(Ref):
         if self.lh[j] > 0:
             if self.in_backhaul:
                 return "not", "linehaul_after_backhaul"
-            b = band(self.cap - (self.load_lh + self.lh[j]), self.cap)
+            b = self._cap_band(self.load_lh, self.lh[j], self.kload_lh, self.klh[j] if self.klh else 0)
             if b == "not":
                 return "not", "capacity_linehaul"
             bands.append(b)
         elif self.bh[j] > 0:
-            b = band(self.cap - (self.load_bh + self.bh[j]), self.cap)
+            b = self._cap_band(self.load_bh, self.bh[j], self.kload_bh, self.kbh[j] if self.kbh else 0)
             if b == "not":
                 return "not", "capacity_backhaul"
             bands.append(b)
@@ -1069,6 +1085,7 @@ class MTVRP(Ref):
             self.rlen = 0.0
             self.load_lh = 0.0
             self.load_bh = 0.0
+            self.kload_lh = self.kload_bh = 0
             self.in_backhaul = False
             self.depot_visited = True
         else:
@@ -1078,6 +1095,9 @@ class MTVRP(Ref):
             self.rlen += dij
             self.load_lh += self.lh[a]
             self.load_bh += self.bh[a]
+            if self.Q is not None:
+                self.kload_lh += self.klh[a]
+                self.kload_bh += self.kbh[a]
             if self.bh[a] > 0:
                 self.in_backhaul = True
             self.visited.add(a)
@@ -1106,10 +1126,17 @@ class MTVRP(Ref):
         for r in routes_of(actions):
             lh = sum(self.lh[a] for a in r)
             bh = sum(self.bh[a] for a in r)
-            if band(self.cap - lh, self.cap) == "not":
-                v.append(("capacity_linehaul", lh - self.cap))
-            if band(self.cap - bh, self.cap) == "not":
-                v.append(("capacity_backhaul", bh - self.cap))
+            if self.Q is not None and INTEGER_CAPACITY:
+                klh, kbh = sum(self.klh[a] for a in r), sum(self.kbh[a] for a in r)
+                if klh > self.Q:
+                    v.append(("capacity_linehaul", (klh - self.Q) / self.Q))
+                if kbh > self.Q:
+                    v.append(("capacity_backhaul", (kbh - self.Q) / self.Q))
+            else:
+                if band(self.cap - lh, self.cap) == "not":
+                    v.append(("capacity_linehaul", lh - self.cap))
+                if band(self.cap - bh, self.cap) == "not":
+                    v.append(("capacity_backhaul", bh - self.cap))
             seen_bh = False
             for a in r:
                 if self.bh[a] > 0:
